@@ -131,6 +131,24 @@ class Scenario:
         return out
 
 
+_ACTIVE = None
+
+
+def _job_entry(i):
+    return _ACTIVE._run_job(i)
+
+
+class ObRec:
+    """picklable result of one obligation"""
+
+    def __init__(self, ob: Obligation):
+        self.name, self.status, self.backend, self.time_s = ob.name, ob.status, ob.backend, ob.time_s
+        self.model, self.note, self.kind, self.exact = ob.model, ob.note, ob.kind, ob.exact
+        self.meta = {k: ob.meta.get(k) for k in ('finding', 'oracle', 'note', 'func', 'scenario') if ob.meta.get(k)}
+        self.nhyps = len(ob.hyps)
+        self.witness, self.goal_str, self.hyps_str = {}, '', []
+
+
 class Check:
     def __init__(self, prop: str, tier='quick', seed=0, program: Program | None = None):
         self.prop = prop
@@ -153,12 +171,21 @@ class Check:
         self.samples: list = []
         self.errors: list = []
         self.native_checks: list = []
+        self.jobs: list = []
+        self.only = None
+        self.show = None
 
     # ------------------------------------------------------------------ exploration
     def explore(self, func_name, body, theory, label='', contracts=None, loop_specs=None, axioms=(),
                 expect_normal=True, call_hook=None, max_paths=4000):
-        """body(S: Scenario) builds symbolic inputs, runs real code through S.call and states obligations.
-        It is re-executed once per path."""
+        """register a scenario: body(S: Scenario) builds symbolic inputs, runs real code through S.call and states
+        obligations; it is re-executed once per path.  Scenarios run (in parallel worker processes) in finish()."""
+        self.jobs.append(dict(func_name=func_name, body=body, theory=theory, label=label, contracts=contracts,
+                              loop_specs=loop_specs, axioms=axioms, expect_normal=expect_normal, call_hook=call_hook,
+                              max_paths=max_paths))
+
+    def _explore_now(self, func_name, body, theory, label='', contracts=None, loop_specs=None, axioms=(),
+                     expect_normal=True, call_hook=None, max_paths=4000):
         def thunk(run):
             I = Interp(self.P, run, theory, contracts or {}, loop_specs or {}, call_hook)
             I.obl_prefix = f'{self.prop}/{func_name}'
@@ -214,35 +241,98 @@ class Check:
         if text not in self.assumptions:
             self.assumptions.append(text)
 
+    # ------------------------------------------------------------------ one scenario, end to end (worker process)
+    def _run_job(self, idx):
+        job = self.jobs[idx]
+        sub = Check.__new__(Check)
+        sub.__dict__.update(prop=self.prop, tier=self.tier, seed=self.seed, P=self.P, t0=time.time(), obligations=[],
+                            _seen=set(), functions={}, trusted=set(), assumptions=[], inlined=set(),
+                            used_contracts=set(), bounded=[], vacuity=[], undecided=[], findings=[], errors=[],
+                            jobs=[], samples=[], native_checks=[], finding_lines=[])
+        t0 = time.time()
+        try:
+            sub._explore_now(**job)
+        except Exception:                  # noqa: BLE001
+            sub.errors.append(f"{job['func_name']}#{job['label']}: scenario crashed: "
+                              + traceback.format_exc().splitlines()[-1])
+        t_explore = time.time() - t0
+        obs = sub.obligations
+        if self.only:
+            obs = [o for o in obs if self.only in o.name]
+        if self.show:
+            for o in obs:
+                if self.show in o.name:
+                    print('=====', o.name, 'path', o.path)
+                    for h in o.hyps:
+                        print('  H:', h)
+                    print('  G:', o.goal)
+        canaries = 0
+        if obs:
+            ok, _r = solve.canary(obs[0].hyps)
+            canaries = 1
+            if not ok:
+                sub.vacuity.append(f'{obs[0].name}: hypotheses unsatisfiable (vacuous)')
+        timeout = 10000 if self.tier == 'quick' else 60000
+        recs = []
+        for ob in obs:
+            try:
+                ob.status, ob.backend, ob.time_s, ob.model, ob.note = solve.solve_one(ob, timeout)
+            except Exception as e:          # noqa: BLE001
+                ob.status, ob.note = 'error', repr(e)
+            if ob.status not in ('proved', 'refuted'):
+                # bounded refutation search: the same VC with the integer inputs confined to a small box, where the
+                # solver finds counter-models of quantified VCs quickly (any model is a genuine counter-model)
+                for bound in (3, 6):
+                    if solve.bounded_refute(ob, bound, 8000):
+                        ob.status, ob.backend = 'refuted', 'z3-' + z3.get_version_string()
+                        ob.note = f'counter-model found with integer inputs confined to [-{bound}, {bound}]'
+                        break
+            rec = ObRec(ob)
+            if ob.status == 'refuted':
+                rec.witness = concretise(ob)
+                rec.goal_str = str(ob.goal)[:4000]
+                rec.hyps_str = [str(h)[:600] for h in ob.hyps[-40:]]
+            elif len(recs) < 2:
+                rec.goal_str = str(ob.goal)[:300]
+            recs.append(rec)
+        return dict(recs=recs, functions=sub.functions, undecided=sub.undecided, errors=sub.errors,
+                    vacuity=sub.vacuity, inlined=sub.inlined, used_contracts=sub.used_contracts, trusted=sub.trusted,
+                    canaries=canaries, t_explore=t_explore, job=f"{job['func_name']}#{job['label']}",
+                    wall=time.time() - t0)
+
     # ------------------------------------------------------------------ finishing
     def finish(self):
-        timeout = 10000 if self.tier == 'quick' else 60000
-        n = len(self.obligations)
-        # vacuity: hypotheses of a sample of obligations per function must be satisfiable
+        global _ACTIVE
+        _ACTIVE = self
         canaries = 0
-        per_func_seen = set()
-        for ob in self.obligations:
-            f = ob.meta.get('func'), ob.meta.get('scenario')
-            if f in per_func_seen:
-                continue
-            per_func_seen.add(f)
-            ok, r = solve.canary(ob.hyps)
-            canaries += 1
-            if not ok:
-                self.vacuity.append(f'{ob.name}: hypotheses unsatisfiable (vacuous)')
-        solve.discharge(self.obligations, timeout_ms=timeout)
-        # undecided obligations: (1) bounded refutation search — the same VC with the integer inputs confined to
-        # a small box, where the solver finds counter-models of quantified VCs quickly (any model is a genuine
-        # counter-model); (2) otherwise the native oracle searches the obligation's witness family.
+        njobs = len(self.jobs)
+        nproc = min(int(os.environ.get('VF_JOBS', '16')), max(1, njobs))
+        if nproc > 1:
+            import multiprocessing as mp
+            with mp.get_context('fork').Pool(nproc) as pool:
+                outs = pool.map(_job_entry, range(njobs), chunksize=1)
+        else:
+            outs = [self._run_job(i) for i in range(njobs)]
+        self.job_times = []
+        for o in outs:
+            self.obligations.extend(o['recs'])
+            for k, v in o['functions'].items():
+                st = self.functions.setdefault(k, {'paths': 0, 'normal': 0, 'ended': 0, 'unsupported': 0, 'scenarios': 0})
+                for kk, vv in v.items():
+                    st[kk] += vv
+            self.undecided.extend(o['undecided'])
+            self.errors.extend(o['errors'])
+            self.vacuity.extend(o['vacuity'])
+            self.inlined |= o['inlined']
+            self.used_contracts |= o['used_contracts']
+            self.trusted |= o['trusted']
+            canaries += o['canaries']
+            self.job_times.append((round(o['wall'], 1), o['job']))
+        if not self.obligations and not self.only:
+            self.vacuity.append('no obligation was generated')
+        # still undecided: the native oracle searches the obligation's witness family; a failing input found on the
+        # real code is a violation whatever the solver said
         self._oracle_cache = {}
-        for ob in self.obligations:
-            if ob.status in ('proved', 'refuted'):
-                continue
-            for bound in (3, 6):
-                if solve.bounded_refute(ob, bound, 8000):
-                    ob.status, ob.backend, ob.note = 'refuted', 'z3-' + z3.get_version_string(), \
-                        f'counter-model found with integer inputs confined to [-{bound}, {bound}]'
-                    break
         for ob in self.obligations:
             if ob.status in ('proved', 'refuted') or not ob.meta.get('oracle'):
                 continue
@@ -271,7 +361,7 @@ class Check:
                 line = f"KNOWN-FINDING: property={self.prop} {f['what']}"
                 print(line)
                 self.finding_lines.append(line)
-                if fid not in finding_hits:
+                if fid not in finding_hits and not self.only:
                     # the obligation meant to expose it was not refuted: verifier and oracle disagree
                     self.errors.append(f'finding {fid}: native witness fails but no obligation tagged with it was '
                                        f'refuted')
@@ -285,8 +375,8 @@ class Check:
                 res = run_native(self.prop, f['native'])
                 self.native_checks.append({'finding': f['id'], 'fixed': True, 'result': res['status']})
                 if res['status'] == 'fails':
-                    path = write_replay(self.prop, f'fixed-finding-{f["id"]}', {'native': f['native'],
-                                        'output': res.get('output', '')})
+                    path = write_replay(self.prop, f'fixed-finding-{f["id"]}', {'property': self.prop, 'native': f['native'],
+                                        'oracle': f['native'], 'output': res.get('output', '')})
                     print(f'VIOLATION property={self.prop} replay={path}')
                     violations.append(None)
         exit_code = 0
@@ -299,7 +389,7 @@ class Check:
             path, replayed = self.report_violation(ob)
             suffix = '' if replayed else ' no-failing-input-found'
             print(f'VIOLATION property={self.prop} replay={path}{suffix}')
-            print(f'  obligation {ob.name} refuted by {ob.backend} in {ob.time_s:.2f}s')
+            print(f'  obligation {ob.name} refuted by {ob.backend} in {ob.time_s:.2f}s {ob.note}')
         if nviol:
             exit_code = 1
         elif self.errors or self.vacuity:
@@ -322,8 +412,8 @@ class Check:
         return exit_code
 
     # ------------------------------------------------------------------ violations
-    def report_violation(self, ob: Obligation):
-        witness = concretise(ob)
+    def report_violation(self, ob):
+        witness = ob.witness
         replayed = False
         native = None
         oracle = ob.meta.get('oracle')
@@ -333,7 +423,7 @@ class Check:
         data = {
             'property': self.prop, 'obligation': ob.name, 'kind': ob.kind, 'exact': ob.exact,
             'backend': ob.backend, 'solver_time_s': ob.time_s, 'witness': witness,
-            'model': ob.model, 'goal': str(ob.goal)[:4000], 'hyps': [str(h)[:600] for h in ob.hyps[-40:]],
+            'model': ob.model, 'goal': ob.goal_str, 'hyps': ob.hyps_str,
             'native': native, 'oracle': oracle, 'note': ob.meta.get('note'), 'solver_note': ob.note,
             'replayed_on_real_code': replayed,
         }
@@ -363,8 +453,7 @@ class Check:
             if f in seen_f:
                 continue
             seen_f.add(f)
-            samples.append({'obligation': o.name, 'status': o.status, 'hyps': len(o.hyps),
-                            'goal': str(o.goal)[:300]})
+            samples.append({'obligation': o.name, 'status': o.status, 'hyps': o.nhyps, 'goal': o.goal_str})
             if len(samples) >= 12:
                 break
         finding_obs = [o for o in refuted if o.meta.get('finding')]
@@ -381,6 +470,7 @@ class Check:
                 'backends': backends,
                 'solver_time_s': round(sum(o.time_s for o in self.obligations), 3),
                 'slowest': [{'obligation': o.name, 'time_s': round(o.time_s, 3)} for o in slow],
+                'scenario_wall_s': sorted(getattr(self, 'job_times', []), reverse=True)[:8],
                 'bounded_checks': self.bounded,
                 'vacuity': {'canaries_run': canaries, 'problems': self.vacuity},
                 'undecided': [{'obligation': o.name, 'status': o.status, 'note': o.note} for o in unknown]
